@@ -48,6 +48,14 @@ func spellAnnot(t *ref.Type, style int) string {
 		if style == 4 {
 			return "byte"
 		}
+	case ref.KEnum:
+		// enums are spelled by name like structs: package-qualified as generators do for included IDL files
+		if style == 6 {
+			return "universe." + t.Annot()
+		}
+		if style == 4 {
+			return "some_pkg . " + t.Annot()
+		}
 	case ref.KStruct:
 		if t.St.Name != "" {
 			if style == 6 {
